@@ -16,11 +16,15 @@ Local Open Scope nat_scope.
      backsolve:             (U + dU) x^ = b ,  |dU| <= gam n |U| ,  U = upper triangle of the matrix handed to backsolve
      forward substitution:  (L + dL) y^ = b ,  |dL| <= gam n |L| ,  L = unit lower triangle (the loop inside solve_lu)
      solve_lu / solve_basic: what they return went through exactly these solves with the COMPUTED factors.
-   NOT COVERED (stated, not proved): the factorisation -- how far the computed L U is from P A (resp. the computed
-   echelon form from the input of gauss_with_pivot); that is where the growth factor of Gaussian elimination with
-   partial pivoting enters (Higham Thm 9.3-9.5), so no statement "(A + dA) x^ = b with |dA| small" about solve_lu or
-   solve_basic as a whole is made here.  Also not re-proved: that IEEE binary64 obeys the standard model absent
-   underflow/overflow (done for dot and multiply only, Props/C15.v, Props/C03.v).
+   and (third block below) the FACTORISATION and the solver as a whole, Higham Theorems 9.3 and 9.4:
+     lu_decomp:  L^ U^ = P A + dA,  |dA| <= gam n |L^||U^|;     solve_lu:  (A + dA) x^ = b + db,
+     |dA| <= (3 gam n + gam n^2) P^T |L^||U^|,  |db| <= gam n |b|   (in IEEE arithmetic P b is exact; the pure standard
+     model charges its rounding to b), L^, U^, P the COMPUTED factors and permutation, pivots nonzero.
+   NOT COVERED (stated, not proved): the comparison of |L^||U^| with |A| -- that, and only that, is where the growth
+   factor of Gaussian elimination with partial pivoting enters (Higham sec. 9.3-9.4); the factorisation half of
+   solve_basic (gauss_with_pivot does not store its multipliers: only its back substitution is covered); that IEEE
+   binary64 obeys the standard model absent underflow/overflow is re-proved for the two triangular solves (second
+   block), dot and multiply (Props/C15.v, Props/C03.v), not for the factorisation.
    ====================================================================================================== *)
 From Coq Require Import Reals Lra Lia.
 From OV Require Import Base.RoundModel Proofs.Matrix Proofs.LUSolve Proofs.RoundDot Proofs.RoundMatvec Proofs.RoundBacksolve
@@ -306,6 +310,116 @@ Proof.
     assert (E1 : FR 1%float = 1%R) by fr_eval.
     assert (Ea : (/ 16 <= FR 0x1.999999999999ap-4%float)%R) by fr_eval.
     rewrite E1. apply no_underflow_ge_small. rewrite Rabs_pos_eq; lra.
+Qed.
+
+(* ---- the factorisation and the solver as a whole (Higham Theorems 9.3, 9.4), standard model ---- *)
+From OV Require Import Proofs.RoundLUFun Proofs.RoundLUTrace Proofs.RoundLUError Proofs.RoundSolveLU.
+
+Theorem lu_factor_backward_error : forall (u : R), (0 <= u < 1)%R ->
+  forall (fadd fsub fmul fdiv : R -> R -> R),
+  (forall x y : R, exists d : R, (Rabs d <= u)%R /\ fsub x y = ((x - y) * (1 + d))%R) ->
+  (forall x y : R, exists d : R, (Rabs d <= u)%R /\ fmul x y = (x * y * (1 + d))%R) ->
+  (forall x y : R, y <> 0%R -> exists d : R, (Rabs d <= u)%R /\ fdiv x y = (x / y * (1 + d))%R) ->
+  forall (m lu perm : matrix (ARm fadd fsub fmul fdiv)) (piv : nat),
+  Proofs.Matrix.wf m -> (INR (rows m) * u < 1)%R -> lu_decomp m = Ok (lu, piv, perm) ->
+  (forall k, (k < rows m)%nat -> rentry fadd fsub fmul fdiv lu k k <> 0%R) ->
+  Proofs.LUPrim.shape lu (rows m) (rows m) /\ Proofs.LUPrim.shape perm (rows m) (rows m) /\
+  exists tau : nat -> nat, PermOK fadd fsub fmul fdiv (rows m) tau perm /\
+    forall i c, (i < rows m)%nat -> (c < rows m)%nat ->
+      exists th : nat -> R, (forall k, (k < rows m)%nat -> (Rabs (th k) <= gam u (rows m))%R) /\
+        rentry fadd fsub fmul fdiv m (tau i) c
+        = Rsum (rows m) (fun k => (tril1 fadd fsub fmul fdiv lu i k * triu fadd fsub fmul fdiv lu k c * (1 + th k))%R).
+Proof. intros u Hu fadd fsub fmul fdiv Hs Hm Hd m lu perm piv. exact (lu_factor_backward_error_lemma u Hu fadd fsub fmul fdiv Hs Hm Hd m lu perm piv). Qed.
+Check lu_factor_backward_error : forall (u : R), (0 <= u < 1)%R ->
+  forall (fadd fsub fmul fdiv : R -> R -> R),
+  (forall x y : R, exists d : R, (Rabs d <= u)%R /\ fsub x y = ((x - y) * (1 + d))%R) ->
+  (forall x y : R, exists d : R, (Rabs d <= u)%R /\ fmul x y = (x * y * (1 + d))%R) ->
+  (forall x y : R, y <> 0%R -> exists d : R, (Rabs d <= u)%R /\ fdiv x y = (x / y * (1 + d))%R) ->
+  forall (m lu perm : matrix (ARm fadd fsub fmul fdiv)) (piv : nat),
+  Proofs.Matrix.wf m -> (INR (rows m) * u < 1)%R -> lu_decomp m = Ok (lu, piv, perm) ->
+  (forall k, (k < rows m)%nat -> rentry fadd fsub fmul fdiv lu k k <> 0%R) ->
+  Proofs.LUPrim.shape lu (rows m) (rows m) /\ Proofs.LUPrim.shape perm (rows m) (rows m) /\
+  exists tau : nat -> nat, PermOK fadd fsub fmul fdiv (rows m) tau perm /\
+    forall i c, (i < rows m)%nat -> (c < rows m)%nat ->
+      exists th : nat -> R, (forall k, (k < rows m)%nat -> (Rabs (th k) <= gam u (rows m))%R) /\
+        rentry fadd fsub fmul fdiv m (tau i) c
+        = Rsum (rows m) (fun k => (tril1 fadd fsub fmul fdiv lu i k * triu fadd fsub fmul fdiv lu k c * (1 + th k))%R).
+Print Assumptions lu_factor_backward_error.
+Example lu_factor_backward_error_nonvacuous :   (* the factors of [[2,1],[0,3]] in the rounding arithmetic have a nonzero diagonal *)
+  (0 <= ux < 1)%R /\ Proofs.Matrix.wf ex_m2 /\ (INR (rows ex_m2) * ux < 1)%R /\
+  lu_decomp ex_m2 = Ok (ex_lu2, 0%nat, ex_id2) /\
+  (forall k, (k < rows ex_m2)%nat -> rentry xadd xsub xmul xdiv ex_lu2 k k <> 0%R).
+Proof.
+  split; [exact ux_range|]. split; [reflexivity|]. split; [exact ex_size2|]. split; [exact ex_lu_decomp|exact ex_lu2_diag].
+Qed.
+
+Theorem solve_lu_backward_error : forall (u : R), (0 <= u < 1)%R ->
+  forall (fadd fsub fmul fdiv : R -> R -> R),
+  (forall x y : R, exists d : R, (Rabs d <= u)%R /\ fadd x y = ((x + y) * (1 + d))%R) ->
+  (forall x y : R, exists d : R, (Rabs d <= u)%R /\ fsub x y = ((x - y) * (1 + d))%R) ->
+  (forall x y : R, exists d : R, (Rabs d <= u)%R /\ fmul x y = (x * y * (1 + d))%R) ->
+  (forall x y : R, y <> 0%R -> exists d : R, (Rabs d <= u)%R /\ fdiv x y = (x / y * (1 + d))%R) ->
+  (forall a b : R, fadd 0%R (fmul a b) = fmul a b) ->
+  forall (m lu perm : matrix (ARm fadd fsub fmul fdiv)) (piv : nat) (b x : list R),
+  Proofs.Matrix.wf m -> (INR (rows m) * u < 1)%R ->
+  lu_decomp m = Ok (lu, piv, perm) ->
+  (forall k, (k < rows m)%nat -> rentry fadd fsub fmul fdiv lu k k <> 0%R) ->
+  solve_lu m b = Ok x ->
+  length x = rows m /\
+  exists tau : nat -> nat,
+    (forall r, (r < rows m)%nat -> (tau r < rows m)%nat) /\
+    (forall r r', (r < rows m)%nat -> (r' < rows m)%nat -> tau r = tau r' -> r = r') /\
+    exists (dA : nat -> nat -> R) (db : nat -> R),
+      (forall i c, (i < rows m)%nat -> (c < rows m)%nat ->
+         (Rabs (dA i c) <= (3 * gam u (rows m) + gam u (rows m) * gam u (rows m))
+                           * Rsum (rows m) (fun k => Rabs (tril1 fadd fsub fmul fdiv lu i k)
+                                                     * Rabs (triu fadd fsub fmul fdiv lu k c)))%R) /\
+      (forall i, (i < rows m)%nat -> (Rabs (db i) <= gam u (rows m) * Rabs (nth (tau i) b 0))%R) /\
+      (forall i, (i < rows m)%nat ->
+         Rsum (rows m) (fun c => ((rentry fadd fsub fmul fdiv m (tau i) c + dA i c) * nth c x 0)%R)
+         = (nth (tau i) b 0 + db i)%R).
+Proof. intros u Hu fadd fsub fmul fdiv Ha Hs Hm Hd H0 m lu perm piv b x. exact (solve_lu_backward_error_lemma u Hu fadd fsub fmul fdiv Ha Hs Hm Hd H0 m lu perm piv b x). Qed.
+Check solve_lu_backward_error : forall (u : R), (0 <= u < 1)%R ->
+  forall (fadd fsub fmul fdiv : R -> R -> R),
+  (forall x y : R, exists d : R, (Rabs d <= u)%R /\ fadd x y = ((x + y) * (1 + d))%R) ->
+  (forall x y : R, exists d : R, (Rabs d <= u)%R /\ fsub x y = ((x - y) * (1 + d))%R) ->
+  (forall x y : R, exists d : R, (Rabs d <= u)%R /\ fmul x y = (x * y * (1 + d))%R) ->
+  (forall x y : R, y <> 0%R -> exists d : R, (Rabs d <= u)%R /\ fdiv x y = (x / y * (1 + d))%R) ->
+  (forall a b : R, fadd 0%R (fmul a b) = fmul a b) ->
+  forall (m lu perm : matrix (ARm fadd fsub fmul fdiv)) (piv : nat) (b x : list R),
+  Proofs.Matrix.wf m -> (INR (rows m) * u < 1)%R ->
+  lu_decomp m = Ok (lu, piv, perm) ->
+  (forall k, (k < rows m)%nat -> rentry fadd fsub fmul fdiv lu k k <> 0%R) ->
+  solve_lu m b = Ok x ->
+  length x = rows m /\
+  exists tau : nat -> nat,
+    (forall r, (r < rows m)%nat -> (tau r < rows m)%nat) /\
+    (forall r r', (r < rows m)%nat -> (r' < rows m)%nat -> tau r = tau r' -> r = r') /\
+    exists (dA : nat -> nat -> R) (db : nat -> R),
+      (forall i c, (i < rows m)%nat -> (c < rows m)%nat ->
+         (Rabs (dA i c) <= (3 * gam u (rows m) + gam u (rows m) * gam u (rows m))
+                           * Rsum (rows m) (fun k => Rabs (tril1 fadd fsub fmul fdiv lu i k)
+                                                     * Rabs (triu fadd fsub fmul fdiv lu k c)))%R) /\
+      (forall i, (i < rows m)%nat -> (Rabs (db i) <= gam u (rows m) * Rabs (nth (tau i) b 0))%R) /\
+      (forall i, (i < rows m)%nat ->
+         Rsum (rows m) (fun c => ((rentry fadd fsub fmul fdiv m (tau i) c + dA i c) * nth c x 0)%R)
+         = (nth (tau i) b 0 + db i)%R).
+Print Assumptions solve_lu_backward_error.
+Example solve_lu_backward_error_nonvacuous :   (* every operation of the example arithmetic rounds; solve_lu answers on [[2,1],[0,3]] x = [1,1] *)
+  (0 <= ux < 1)%R /\
+  (forall x y : R, exists d : R, (Rabs d <= ux)%R /\ xadd x y = ((x + y) * (1 + d))%R) /\
+  (forall x y : R, exists d : R, (Rabs d <= ux)%R /\ xsub x y = ((x - y) * (1 + d))%R) /\
+  (forall x y : R, exists d : R, (Rabs d <= ux)%R /\ xmul x y = (x * y * (1 + d))%R) /\
+  (forall x y : R, y <> 0%R -> exists d : R, (Rabs d <= ux)%R /\ xdiv x y = (x / y * (1 + d))%R) /\
+  (forall a b : R, xadd 0%R (xmul a b) = xmul a b) /\
+  Proofs.Matrix.wf ex_m2 /\ (INR (rows ex_m2) * ux < 1)%R /\
+  lu_decomp ex_m2 = Ok (ex_lu2, 0%nat, ex_id2) /\
+  (forall k, (k < rows ex_m2)%nat -> rentry xadd xsub xmul xdiv ex_lu2 k k <> 0%R) /\
+  exists x, solve_lu ex_m2 ex_b2 = Ok x.
+Proof.
+  split; [exact ux_range|]. split; [exact xadd_ok|]. split; [exact xsub_ok|]. split; [exact xmul_ok|].
+  split; [exact xdiv_ok|]. split; [exact xadd_0_mul|]. split; [reflexivity|]. split; [exact ex_size2|].
+  split; [exact ex_lu_decomp|]. split; [exact ex_lu2_diag|exact ex_solve_lu].
 Qed.
 
 (* ---------- Props/pending/C02_round.v.txt ---------- *)
